@@ -15,7 +15,7 @@ if ! git apply "$SRC/patch.diff" 2>"$WT/apply.err"; then
 fi
 /venv/bin/python -m compileall -q malt >/dev/null 2>&1; COMP=$?
 PYTHONPATH="$WT" timeout 300 /venv/bin/python demo_seed.py >"$WT/patched.out" 2>&1; PATCHED=$?
-BASE=$(/tmp/wt/run_baseline.sh "$WT" | tail -1)
+BASE=$(/verif/tools/run_baseline.sh "$WT" | tail -1)
 echo "$ID-$K: clean_exit=$CLEAN patched_exit=$PATCHED compile=$COMP baseline=${BASE:0:60}"
 if [ "$CLEAN" = 0 ] && [ "$PATCHED" != 0 ] && [ "$COMP" = 0 ] && [[ "$BASE" == BASELINE-OK* ]]; then
   D=/verif/seeded/${SEEDNAME:-$ID-$K}; mkdir -p "$D"
